@@ -11,11 +11,12 @@ from vlib import sx, lib, model, gen, env, selftest, probe
 
 RULE = ("plans of 1-40 steps as random walks steered by the reference model (valid and invalid steps at every position incl. "
         "first and last, both values of allow_invalid_actions, upper-case / extra-blank plan lines, file and list input) over "
-        "generated worlds with numeric, conditional and universal effects; plus the shipped (domain, problem, plan) triples; a "
+        "generated worlds with numeric, conditional and universal effects, several problems per domain with different object "
+        "universes, half of the plans exported by an exporter that already served other problems; plus the shipped (domain, problem, plan) triples; a "
         "case = one (domain, problem, plan, flag); distinct by texts + plan; non-trivial when the plan has >= 1 valid and >= 1 "
         "invalid step (generated) or >= 10 steps (shipped)")
 DECISIVE = ["compared:step"]
-DECISIVE_EACH = ["compared:step", "compared:chain", "compared:export", "compared:refusal"]
+DECISIVE_EACH = ["compared:step", "compared:chain", "compared:export", "compared:refusal", "plans_exported_by_a_reused_exporter"]
 ASSUMPTIONS = ["refpddl.successor / holds as in C02, C03", "plans never contain steps whose model evaluation leaves C03's quantifier"]
 SHARDS = {"quick": 16, "thorough": 16}
 
@@ -129,7 +130,7 @@ def run(ctx):
     from pddl_plus_parser.exporters import TrajectoryExporter
     rng = ctx.rng("c04")
     thorough = ctx.tier == "thorough"
-    n_worlds = 40 if thorough else 4
+    n_worlds = 40 if thorough else 8
     for wi in range(n_worlds):
         w = gen.gen_plan_world(rng)
         if not w.actions:
@@ -141,11 +142,21 @@ def run(ctx):
             ctx.count("refused:domain")
             continue
         dom_m = model.RefDomain.from_text(dtext)
-        wm = model.World(dom_m, w.objects)
+        w_full = w
+        exporters = {}
         for pi in range(8 if thorough else 3):
             if not ctx.next_case():
                 continue
             ctx.count("cases")
+            # the problems of one domain do not share their object universe: some lack objects the others have
+            w = w_full
+            if pi and rng.random() < 0.6 and len(w_full.objects) > 2:
+                import copy
+                w = copy.copy(w_full)
+                drop = set(rng.sample(sorted(w_full.objects), rng.randint(1, max(1, len(w_full.objects) // 3))))
+                w.objects = {o: t for o, t in w_full.objects.items() if o not in drop}
+                ctx.count("problems_with_a_smaller_object_universe")
+            wm = model.World(dom_m, w.objects)
             st0 = gen.random_state(rng, w)
             ptext = sx.plain(w.problem_ast(st0, rng=rng))
             try:
@@ -163,7 +174,14 @@ def run(ctx):
             allow = rng.random() < 0.5
             via_file = rng.random() < 0.5
             wit = {"domain": dtext, "problem": ptext, "plan": lines, "allow_invalid_actions": allow, "input": "file" if via_file else "list"}
-            exporter = TrajectoryExporter(dom, allow_invalid_actions=allow)
+            # one exporter serves many problems of its domain (it is constructed per domain): half of the plans are
+            # exported by an exporter that has already exported plans of other problems
+            if rng.random() < 0.5 and allow in exporters:
+                exporter = exporters[allow]
+                ctx.count("plans_exported_by_a_reused_exporter")
+                wit["exporter"] = "reused after other problems of the domain"
+            else:
+                exporter = exporters[allow] = TrajectoryExporter(dom, allow_invalid_actions=allow)
             try:
                 if via_file:
                     p = env.write_tmp("\n".join(lines) + ("\n" if rng.random() < 0.7 else ""), suffix=".solution")
